@@ -84,8 +84,10 @@ def corpus():
     for i, v in enumerate(vs):
         for level in (1, 2):
             m9 = structref.msh9_for(v, 'ADT_A01') or 'ADT^A01'
-            msg = 'MSH|^~\\&|A|B|C|D|20200101||%s|%d|P|%s\rEVN||20200101\rPID|1||%d||A^B\rPV1|1|I\rOBX|1|NM|X||%d.5\rZZ1|q' % (
-                m9, i, v, i, i)
+            # (every call names its own locally defined segment)
+            zname = 'Z%s%s' % ('AB'[level - 1], chr(65 + i))
+            msg = 'MSH|^~\\&|A|B|C|D|20200101||%s|%d|P|%s\rEVN||20200101\rPID|1||%d||A^B\rPV1|1|I\rOBX|1|NM|X||%d.5\r%s|q' % (
+                m9, i, v, i, i, zname)
 
             def pm(msg=msg, level=level):
                 m = parser.parse_message(msg, validation_level=level)
@@ -122,6 +124,8 @@ def corpus():
                 g = [c.name for c in tables.messages(v)['ADT_A01'].children if c.kind == 'GRP']
                 if g:
                     m.add_group(g[0])
+                zn = 'Z%s%s' % ('CD'[level - 1], chr(65 + i))
+                setattr(m.add_segment(zn), '%s_2' % zn.lower(), 'z%d' % i)
                 return [m.to_er7(), [str(e) for e in m.validate(return_errors=True).errors]]
             calls.append(('build_message/%s/%d' % (v, level), bm))
             for dt, val in (('DT', '20200101'), ('DT', 'bad'), ('TM', '1200+0100'), ('NM', '12.5'), ('SI', '7'),
